@@ -287,7 +287,11 @@ func (x *Exec) havocLoop(st *State, lc *LoopContract, ord int, pos token.Pos, no
 			}
 			st.heaps[hn] = nh
 			st.assume(Forall([]BoundVar{k}, Implies(And(conds...), Eq(Select(nh, kt), Select(hpre, kt))), Select(nh, kt)))
-			_ = hn
+			for _, t := range x.assignTargets(env, lc.Preserves) {
+				if t.heap == hn {
+					st.assume(Eq(Select(nh, t.key), Select(hpre, t.key)))
+				}
+			}
 		}
 		return
 	}
